@@ -19,20 +19,39 @@ RULE = ("seeded random meshes as for C01 with more empty inputs (zero vertices /
         "unique_bincount on random integer vectors; non-trivial = the call returned; distinct by hash of inputs")
 
 
+_BASE_RULE = RULE
+
+
+def _private(name):
+    """a private function of the anchored module that two auxiliary streams call on purpose — or None when this tree does not
+    have it (a refactor may remove it; the public behaviour is covered by the mesh streams either way)"""
+    import polliwog.plane._trimesh_intersections as mod
+
+    f = getattr(mod, name, None)
+    return f if callable(f) else None
+
+
 def gen_cases(rng, n, tier):
+    global RULE
     from props.C01 import NEAR_BAND
 
+    have_ub, have_kernel = _private("unique_bincount") is not None, _private("slice_faces_plane") is not None
+    RULE = _BASE_RULE + "".join(
+        "; STREAM SKIPPED: %s (polliwog.plane._trimesh_intersections.%s does not exist in this tree)" % (what, name)
+        for ok, what, name in ((have_ub, "direct unique_bincount cases", "unique_bincount"),
+                               (have_kernel, "kernel dtype cases", "slice_faces_plane")) if not ok)
     cases = [dict(NEAR_BAND)]  # the near-band example (fixed by fixes/C01-snap-on-plane-distances.diff), always exercised
     while len(cases) < n:
         if rng.random() < 0.12:
             k = rng.randint(1, 20)
             hi = rng.choice([0, 3, 8, 30])
-            cases.append({"kind": "unique_bincount", "values": [rng.randint(0, hi) for _ in range(k)],
-                          "int32": rng.random() < 0.3})
+            ub = {"kind": "unique_bincount", "values": [rng.randint(0, hi) for _ in range(k)], "int32": rng.random() < 0.3}
+            cases.append(ub if have_ub else S.gen_mesh_case(rng, tier, "struct"))
         else:
             c = S.gen_mesh_case(rng, tier, "struct")
             cases.append(c)
-            if c.get("vdtype", "float64") != "float64" and S.in_domain(c) and not any(i < 0 for f in c["faces"] for i in f):
+            if (have_kernel and c.get("vdtype", "float64") != "float64" and S.in_domain(c)
+                    and not any(i < 0 for f in c["faces"] for i in f)):
                 # the same input straight into slice_faces_plane: the kernel keeps the vertex dtype on its uncut returns
                 cases.append(dict(c, kind="kernel_dtype", buckets=[]))
     for c in cases:
@@ -43,7 +62,7 @@ def gen_cases(rng, n, tier):
 
 def run_impl(c):
     if c["kind"] == "unique_bincount":
-        from polliwog.plane._trimesh_intersections import unique_bincount
+        unique_bincount = _private("unique_bincount")
 
         def go():
             u, inv = unique_bincount(np.array(c["values"], dtype=np.int32 if c["int32"] else np.int64))
@@ -51,7 +70,7 @@ def run_impl(c):
 
         return call_impl(go)
     if c["kind"] == "kernel_dtype":
-        from polliwog.plane._trimesh_intersections import slice_faces_plane
+        slice_faces_plane = _private("slice_faces_plane")
 
         def go():
             V, Fa, ref, n, mask = S.arrays(c)
